@@ -242,12 +242,24 @@ Section Idx.
     split; [rewrite new_entries_length; reflexivity | apply IH].
   Qed.
 
+  Lemma empty_chains_ok : forall k j, chains_ok_from K child j (repeat [] k).
+  Proof. induction k as [|k IH]; intros j; cbn [repeat chains_ok_from]; [exact I | split; [reflexivity | apply IH]]. Qed.
+  Lemma chains_ok_from_app : forall w j w2,
+    chains_ok_from K child j w -> chains_ok_from K child (j + length w) w2 -> chains_ok_from K child j (w ++ w2).
+  Proof.
+    induction w as [|c r IH]; intros j w2 H1 H2.
+    - cbn [length app] in *. rewrite Nat.add_0_r in H2. exact H2.
+    - destruct H1 as [Hc Hr]. cbn [app chains_ok_from]. split; [exact Hc|].
+      apply IH; [exact Hr|]. cbn [length] in H2. replace (Datatypes.S j + length r) with (j + Datatypes.S (length r)) by lia. exact H2.
+  Qed.
+
   Lemma step_ok : forall w o, chains_ok K child w -> chains_ok K child (i_step K child w o).
   Proof.
-    intros w o Hok. destruct o as [j n|n act| | | |]; cbn [i_step]; try exact Hok.
+    intros w o Hok. destruct o as [j n|n act| | | | |]; cbn [i_step]; try exact Hok.
     - unfold i_generate. destruct (i_generate_at K child j j n w) as [w'|] eqn:E; [|exact Hok].
       apply (generate_at_ok w 0 j n w' Hok E).
     - unfold i_scan. destruct n; [exact Hok | apply scan_from_ok].
+    - apply chains_ok_from_app; [exact Hok | apply (empty_chains_ok 2)].
   Qed.
 
   (* every chain of the wallet is the single-shot derivation of its own length,
@@ -259,8 +271,6 @@ Section Idx.
     unfold i_run in *. cbn [fold_left]. apply IH. apply step_ok. exact Hok.
   Qed.
 
-  Lemma empty_chains_ok : forall k j, chains_ok_from K child j (repeat [] k).
-  Proof. induction k as [|k IH]; intros j; cbn [repeat chains_ok_from]; [exact I | split; [reflexivity | apply IH]]. Qed.
 
   (* ScanAddresses on a chain keeps exactly up to the last active scanned address *)
   Theorem scan_keeps_prefix_idx : forall (c : list K) (r : iwallet K) (j n : nat) (act : K -> bool),
@@ -300,6 +310,62 @@ Section Idx.
     i_run K child (ops1 ++ ISaveReload :: ops2) w = i_run K child (ops1 ++ ops2) w.
   Proof. intros. unfold i_run. rewrite !fold_left_app. reflexivity. Qed.
 End Idx.
+
+(* ------------------------------------------------------------ coin type *)
+Section CoinIdx.
+  Variable K : Type.
+  Variable child : coin -> nat -> nat -> K.
+
+  Lemma cw_run_eq : forall ops (w : cwallet K),
+    cw_run K child ops w = {| cw_coin := cw_coin w; cw_chains := i_run K (child (cw_coin w)) ops (cw_chains w) |}.
+  Proof.
+    induction ops as [|o ops IH]; intros [c cs]; [reflexivity|].
+    unfold cw_run, i_run in *. cbn [fold_left]. rewrite IH. reflexivity.
+  Qed.
+
+  (* after any operation sequence, save + reload included, the wallet still has its
+     coin and every chain is the single-shot derivation in that coin's address form *)
+  Theorem batch_independent_coin : forall (ops : list (iop K)) (w : cwallet K),
+    chains_ok K (child (cw_coin w)) (cw_chains w) ->
+    cw_coin (cw_run K child ops w) = cw_coin w
+    /\ chains_ok K (child (cw_coin w)) (cw_chains (cw_run K child ops w)).
+  Proof.
+    intros ops w Hok. rewrite cw_run_eq. cbn [cw_coin cw_chains]. split; [reflexivity|].
+    apply batch_independent_idx. exact Hok.
+  Qed.
+
+  Theorem reload_same_coin : forall (ops1 ops2 : list (iop K)) (w : cwallet K),
+    cw_run K child (ops1 ++ ISaveReload :: ops2) w = cw_run K child (ops1 ++ ops2) w.
+  Proof. intros. rewrite !cw_run_eq. rewrite reload_same_idx. reflexivity. Qed.
+End CoinIdx.
+
+Section CoinDet.
+  Variable S Sec K : Type.
+  Variable step : S -> S * Sec.
+  Variable key_of : coin -> Sec -> K.
+
+  Lemma cd_run_eq : forall ops (w : cdwallet S Sec),
+    cd_run S Sec step ops w = {| cd_coin := cd_coin w; cd_w := d_run S Sec step ops (cd_w w) |}.
+  Proof.
+    induction ops as [|o ops IH]; intros [c dw]; [reflexivity|].
+    unfold cd_run, d_run in *. cbn [fold_left]. rewrite IH. reflexivity.
+  Qed.
+
+  (* the entries shown by a deterministic wallet of coin c are the first d_count
+     keys of its seed's chain in c's address form, whatever the history *)
+  Theorem batch_independent_det_coin : forall (c : coin) (s : S) (ops : list (dop Sec)),
+    let w := cd_run S Sec step ops {| cd_coin := c; cd_w := d_init S Sec s |} in
+    cd_coin w = c
+    /\ cd_entries S Sec K key_of w = map (key_of c) (derive_all S Sec step s (d_count S Sec step s ops)).
+  Proof.
+    intros c s ops w. unfold w. rewrite cd_run_eq. unfold cd_entries. cbn [cd_coin cd_w].
+    split; [reflexivity|]. destruct (batch_independent S Sec step s ops) as [H _]. rewrite H. reflexivity.
+  Qed.
+
+  Theorem reload_same_det_coin : forall (ops1 ops2 : list (dop Sec)) (w : cdwallet S Sec),
+    cd_run S Sec step (ops1 ++ DSaveReload :: ops2) w = cd_run S Sec step (ops1 ++ ops2) w.
+  Proof. intros. rewrite !cd_run_eq. rewrite reload_same. reflexivity. Qed.
+End CoinDet.
 
 (* ------------------------------------------------------------ entries *)
 Section Entries.
